@@ -11,7 +11,7 @@ pub mod variable;
 #[cfg(feature = "verif")]
 pub mod verif;
 #[cfg(feature = "verif-loom")]
-mod verif_loom;
+pub mod verif_loom;
 pub use simplesl_macros::{var, var_type};
 use std::fmt::{Debug, Display};
 pub use {
